@@ -27,7 +27,7 @@ Rec   == ndJsonDeserialize(IOEnv.TRACE)
 Known == ndJsonDeserialize(IOEnv.KNOWN)
 
 (* only ValidFrom is used; the universe constants of CertChain are irrelevant here *)
-C == INSTANCE CertChain WITH Shape <- <<1, 2>>, EpochOrderStrict <- TRUE, CacheSound <- TRUE,
+C == INSTANCE CertChain WITH Shape <- <<1, 2>>, EpochOrderStrict <- TRUE, CacheSound <- TRUE, FetchedHashChecked <- TRUE,
         MaxAlter <- 1, TamperFields <- {}, MsgModes <- {}, Twins <- FALSE, ForgeEpochs <- {}, Forge2Pars <- {}, ForgeKeys <- {}, ForgePars <- {}, ForgeNextAvk <- {},
         ForgeNextPars <- {}, ForgeLevels <- 1
 
